@@ -265,6 +265,37 @@ def linearize : List Micro → List (Ctx × Op)
   | .take c :: rest => (c, .dropAttach) :: linearize rest
   | .dropPair _ :: rest => linearize rest
 
+/-- Does this answer show the caller that nothing is attached (from a context without test sink it can
+only come from an empty slot): an entry handed back, `None`, `is_attached() = false`, the
+"must be attached" panic of `append` / `sink()`, or an `attach` that succeeds. -/
+def seesDetached (o : Op) : Res → Bool
+  | .returned _ => true
+  | .none => true
+  | .bool false => true
+  | .panic => (match o with | .append _ | .sink _ | .hold _ => true | _ => false)
+  | .ok => (match o with | .attach _ => true | _ => false)
+  | _ => false
+
+/-- The ordering half of "dropping an attach handle restores routing to the next destination *after
+flushing* what the detached sink had accepted": every operation that observes the detached state
+takes effect when no taken pair is still being dropped (flushed). Evaluated by the driver on the
+schedules observed from the real threads. -/
+def flushOrdered (m : MState) : List Micro → Bool
+  | [] => true
+  | ev :: rest =>
+    (match ev with
+      | .op c o => !(seesDetached o (step m.st c o).2) || m.dropping.isEmpty
+      | _ => true) && flushOrdered (microStep m ev).1 rest
+
+/-- Schedules of the code as it is: the pair is dropped while the write lock taken for `take` is still
+held, so nothing takes effect between `take` and its `dropPair`. -/
+def locked : List Micro → Bool
+  | [] => true
+  | .op _ _ :: rest => locked rest
+  | .take _ :: .dropPair _ :: rest => locked rest
+  | .take _ :: _ => false
+  | .dropPair _ :: rest => locked rest
+
 /-! A variant that is *not* the code: a cached "attached" flag consulted by `try_append` before the
 lock, set by `attach`, cleared by the detach only after the taken pair has been dropped. Used for a
 `decide`d witness that this is not linearizable. -/
